@@ -1,6 +1,6 @@
 """Methods for converting to and from hyperedge lists."""
 
-from ..core import SimplicialComplex
+from ..core import DiHypergraph, SimplicialComplex
 from ..generators import empty_hypergraph
 
 __all__ = [
@@ -34,7 +34,13 @@ def from_hyperedge_dict(d, create_using=None):
     to_hyperedge_list
     """
     H = empty_hypergraph(create_using)
-    H.add_edges_from((members, uid) for uid, members in d.items())
+    if isinstance(H, DiHypergraph):
+        # a (tail, head) pair is told from a (members, id) pair by its second
+        # element, which goes wrong when an edge ID is itself iterable (a tuple);
+        # the dict form needs no guessing
+        H.add_edges_from(d)
+    else:
+        H.add_edges_from((members, uid) for uid, members in d.items())
     return H
 
 
